@@ -111,10 +111,23 @@ Section TextWidth.
       end
     end.
 
-  (** write_truncated_start (229-265) on a plain formatter: what is written and the returned
+  (** write_truncated_start (229-270) on a plain formatter: what is written and the returned
       width.  Note the two measures: the decision to truncate and the room left for the ellipsis
-      use the whole-string width [sw], the cutting uses per-character widths. *)
+      use the whole-string width [sw], the cutting uses per-character widths.  Leading zero-width
+      characters are trimmed only after an actual truncation (lines 265-270, since /repo commit
+      a58816e). *)
   Definition write_truncated_start (data ell : list A) (max : nat) : list A * nat :=
+    let dw := sw data in
+    let ew := sw ell in
+    if (max <? dw)%nat then
+      let '(k, _, w) := truncate_start data (max - ew) in
+      let '(ek, _, ew2) := truncate_start ell max in
+      (trim_start_zero ek ++ trim_start_zero k, w + ew2)
+    else (data, dw).
+
+  (** The function as it was before commit a58816e: the trim also ran when nothing was truncated
+      (finding F-C44b, repaired; kept for the refutation witness). *)
+  Definition write_truncated_start_old (data ell : list A) (max : nat) : list A * nat :=
     let dw := sw data in
     let ew := sw ell in
     if (max <? dw)%nat then
@@ -288,27 +301,16 @@ Definition trunc_okb (start : bool) (data ell : list ch) (max swd : N) (out : li
   (out_width tbl out <=? max) && (w =? out_width tbl out)
   && (if swd <=? max then cps_eqb out (out_cps data) else true).
 
-(** Known-finding classes of write_truncated_* (reported to the coordinator):
-    1 = the whole-string width of content or ellipsis differs from the sum of the character
-        widths (tabs and other control characters, emoji ZWJ / variation sequences): the function
-        decides with one measure and cuts with the other;
-    2 = write_truncated_start on content that fits but begins with zero-width characters: they
-        are dropped although nothing was truncated. *)
-Definition starts_zero_width (l : list ch) : bool :=
-  match l with c :: _ => snd c =? 0 | [] => false end.
-Definition known_class (c : case) : N :=
+(** Known-finding class of write_truncated_* (known_findings.txt, class truncate-mixed-measures):
+    the whole-string width of the content or of the ellipsis differs from the sum of the
+    character widths (tabs and other control characters, emoji ZWJ / variation sequences): the
+    function decides with one measure and cuts with the other. *)
+Definition known_class (c : case) : bool :=
   match c with
   | CTrunc start data ell max swd swe _ _ _ =>
-    if negb (measures_agree data swd && measures_agree ell swe) then 1
-    else if start && (swd <=? max) && starts_zero_width data then 2 else 0
-  | _ => 0
+    negb (measures_agree data swd && measures_agree ell swe)
+  | _ => false
   end.
-
-(** What must hold even inside class 2: only leading zero-width characters were dropped. *)
-Definition trunc_weak_okb (data ell : list ch) (max swd : N) (out : list N) (w : N) : bool :=
-  let tbl := data ++ ell in
-  (out_width tbl out <=? max) && (w =? out_width tbl out)
-  && is_suffix_of out (out_cps data) && (out_width tbl out =? swd).
 
 Definition pad_okb (kind : N) (data fill : list ch) (min swd : N) (out : list N) : bool :=
   let d := out_cps data in
@@ -334,16 +336,9 @@ Definition okb (c : case) : bool :=
   | CWrap text width ls _ => lines_ok text width ls
   end.
 
-(** A failing case is demoted to a known finding only inside a class, and in class 2 only if
-    nothing but leading zero-width characters was lost. *)
+(** A failing case is demoted to a known finding only inside the class (and never a panic). *)
 Definition knownb (c : case) : bool :=
-  negb (okb c) && negb (panicked_of c) &&
-  match c with
-  | CTrunc start data ell max swd swe out w _ =>
-    let k := known_class c in
-    (k =? 1) || ((k =? 2) && trunc_weak_okb data ell max swd out w)
-  | _ => false
-  end.
+  negb (okb c) && negb (panicked_of c) && known_class c.
 
 Definition res_eqb (r : eres (A := ch)) (out : list N) (w : N) (p : bool) : bool :=
   match r with
